@@ -19,7 +19,7 @@ extern "C" const char* __asan_default_options();
 extern "C" __attribute__((used, visibility("default"))) const char* __asan_default_options() {
   return "exitcode=77:detect_leaks=0:symbolize=0:abort_on_error=0:allocator_may_return_null=1:"
          "detect_stack_use_after_return=0:handle_abort=1:print_legend=0:print_summary=1:malloc_context_size=8:"
-         "detect_odr_violation=0:max_redzone=256";
+         "detect_odr_violation=0:redzone=128:max_redzone=2048:malloc_fill_byte=190:max_malloc_fill_size=1073741824:free_fill_byte=221:max_free_fill_size=4096";
 }
 extern "C" __attribute__((used, visibility("default"))) const char* __ubsan_default_options() {
   return "print_stacktrace=1:symbolize=0:halt_on_error=1:exitcode=77";
@@ -273,12 +273,20 @@ void set_task_stack(TaskCtx* t) {
   t->stack_lo = (uintptr_t)addr;
   t->stack_hi = (uintptr_t)addr + sz;
 }
+static uintptr_t g_main_stack_lo = 0, g_main_stack_hi = 0;
+void cache_main_stack() {   // template: pthread_getattr_np parses /proc/self/maps for the main thread (slow under ASan)
+  TaskCtx t;
+  set_task_stack(&t);
+  g_main_stack_lo = t.stack_lo;
+  g_main_stack_hi = t.stack_hi;
+}
 void run_reset_child() {
   g_live.clear();
   g_next_obj = 0;
   g_main_ctx = TaskCtx();
   g_main_ctx.id = 0; g_main_ctx.events = 0;
-  set_task_stack(&g_main_ctx);
+  if (g_main_stack_hi) { g_main_ctx.stack_lo = g_main_stack_lo; g_main_ctx.stack_hi = g_main_stack_hi; }
+  else set_task_stack(&g_main_ctx);
   t_task = &g_main_ctx;
   vfs_clear();
 }
